@@ -730,6 +730,7 @@ func (e *Engine) execSimple(st *State, fr *Frame, ins ssa.Instruction) {
 	case *ssa.MakeMap:
 		mt := x.Type().Underlying().(*types.Map)
 		id := e.smt.Fresh("map", SU)
+		e.freshObjs = append(e.freshObjs, id)
 		st.assume(mkNot(mkEq(id, "nil")))
 		pres, presSort, _, _, ksort := e.mapArrays(st, mt)
 		e.setHeapArr(st, sanitize("MP!"+typeKey(mt)), presSort, mkStore(pres, id, fmt.Sprintf("((as const %s) false)", arraySort(ksort, SBool))))
